@@ -51,7 +51,8 @@ CHECKS = {
              "C13_schedule_independent: taking each call as one atomic step (what the two mutexes provide), under ANY interleaving of several threads' calls every thread gets the specified answers to its own calls; "
              "C13_constants re-checks the regenerated constants. Tied to samply-symbols by running FileContentsWithChunkedCaching on generated call sequences and evaluating spec + model in Coq, "
              "and by a multi-threaded stream (real threads released together onto one fresh cache, hundreds of rounds per case, every answer against the specification); "
-             "read_bytes_into is a model operation of its own (ReadInto) and the source can fail a read once (the calls that met the failure are left out: a failed read leaves no trace). "
+             "read_bytes_into is a model operation of its own (ReadInto); the source can fail a read once: C13_failed_reads_leave_no_trace (model run_f: a call that reaches the failing source returns an error "
+             "and changes nothing, so every call of a history with failures is answered exactly as in the history without the failed calls) and the correspondence run compares every call of such histories, the failed ones included. "
              "Two defects (F-C13a/b) were found, fixed by fix: commits and stay in corpus/C13.",
         note="Trusted: Coq kernel; RangeMap overwrite semantics as modelled; harness h_symbols (byte comparison against the in-memory file). "
              "Not proved: that the mutex scopes make each call atomic (assumed by C13_schedule_independent; the lock scope is pinned and the multi-threaded stream samples real schedules, which is testing), FrozenVec slice validity.",
@@ -94,8 +95,10 @@ CHECKS = {
     "C15": dict(
         text="Coq theorems C15_evict (after a pass: total <= maximum, nothing older than the maximum age, nothing outside touched, nothing added), C15_lru_prefix_minimal "
              "(the size pass selects exactly the shortest prefix of the access-time order covering the excess; nothing when the total fits, including total = maximum), C15_idempotent, "
-             "C15_bookkeeping, C15_confined, C15_restart, C15_reachable_unique - for every state reachable by any history. Tied to the real QuotaManager + sqlite inventory on scratch "
-             "directories (eviction run synchronously through a cfg(samply_verif) hook), inventory rows and directory listings compared with the model inside Coq. "
+             "C15_bookkeeping, C15_confined, C15_restart, C15_reachable_unique - for every state reachable by any history; C15_clock_alone (model op Tick: when time passes between two passes with no activity, "
+             "no settings change and no restart, the second pass removes exactly the files that aged past the maximum age meanwhile). Tied to the real QuotaManager + sqlite inventory on scratch "
+             "directories (eviction run synchronously through a cfg(samply_verif) hook), inventory rows and directory listings compared with the model inside Coq; a second stream runs short histories on a fast clock "
+             "(6 s per time unit) in which REAL time passes between passes. "
              "F-C15a/b were found, fixed and stay in corpus/C15.",
         note="Trusted: Coq kernel; SQLite (durability, tie order = rowid); harness h_quota; the two hooks. Not exercised: a crash between unlink and row deletion; "
              "delete errors other than NotFound; the Notify-coalescing of the background task (the hook runs the same pass synchronously).",
@@ -147,7 +150,8 @@ CHECKS = {
         text="Coq theorems C05_contains_and_enumerated_max (on any strictly sorted entry list a successful lookup returns start <= address < end, the entry is enumerated and no entry lies in (start, address]), "
              "C05_build_sorted (sort + dedup yields a strictly sorted list for any sources), C05_forms_agree / C05_forms_offset (relative, stated-virtual and file-offset forms give the same answer) and the "
              "jitdump analogues. Tied to samply-symbols by looking addresses up in all forms on fixture binaries (ELF, Mach-O, PE), generated ELF objects, Breakpad and jitdump files; the entry list comes from a "
-             "cfg(samply_verif) hook; a property checker and the model are evaluated in Coq; each batch is repeated from 8 threads.",
+             "cfg(samply_verif) hook; a property checker (containment, enumeration, name, and: any two lookups of a case that denote the same relative address - in whatever forms - were answered alike) and the model are evaluated in Coq; "
+             "generated ELF files include ones whose segments are not in file-offset order; each batch is repeated from 8 threads.",
         note="Trusted: Coq kernel; the hook; demangle_any as oracle for the name clause; harness h_symbols. Not modelled: how `object` symbols are filtered into the entry list; PDB (fixtures emptied); "
              "thread-safety is exercised, not proved (the model is a pure function of the entry list).",
         technique="Coq proof (characterisation of the binary-search lookup on strictly sorted lists; insertion-sort/dedup invariants) + differential correspondence run with a property checker evaluated by vm_compute",
@@ -156,22 +160,24 @@ CHECKS = {
         text="Coq theorems C06_symbol_map_id / C06_no_fallback (for every candidate list and order the symbol map returned is the first candidate carrying exactly the requested debug id; with no such candidate the "
              "request fails), C06_binary_id / C06_binary_no_fallback (the same for binaries: by debug id when given, else by code id), C06_debuglink (CRC equality), C06_supplementary (build-id equality) and "
              "C06_fat_member (with a debug id as disambiguator only a member with that id is selected, never 'the only member'). Tied to samply-symbols by running load_symbol_map / load_binary / "
-             "load_symbol_map_from_location on candidate lists over every fixture format, build-id-flipped copies, generated fat archives and corrupted companion files, and evaluating the model on the "
+             "load_symbol_map_from_location on candidate lists over every fixture format, build-id-flipped copies, generated fat archives, images inside generated dyld shared caches "
+             "(CandidatePathInfo::InDyldCache; the cache holding the requested build, another build under the same install path, or no such path) and corrupted companion files, and evaluating the model on the "
              "standalone outcomes of the same candidates.",
         note="Trusted: Coq kernel; harness h_symbols (in-memory helper, own CRC32); Python's independent LC_UUID / build-id -> debug id computation. Each candidate is abstracted to its standalone outcome "
-             "(which id samply itself reads from the file); dyld-cache candidates are not exercised.",
+             "(which id samply itself reads from the file; for an image inside a generated shared cache: the LC_UUID the generator put there).",
         technique="Coq proof (characterisation of the first-match candidate loops, id comparisons and fat member selection) + differential correspondence run evaluated by vm_compute",
         design="4/C06"),
     "C16": dict(
         text="Coq theorems over every event list (any number of creators, any interleaving of the protocol's file-system steps, kills at any point, failing write functions and renames): "
              "C16_atomic_visibility (the final path is absent or holds the complete contents of one successful write), C16_stable (once present it never changes), C16_at_most_once (at most one rename), "
              "C16_mutex (writers exclude each other although the lock path is unlinked on success), C16_success_sees_complete, C16_retry (after any failed/killed attempts a fresh creator succeeds). "
-             "Tied to wholesym/src/file_creation.rs by running the real routine (step hook) with 2..5 creators in 1..4 processes under driver-chosen schedules with SIGKILLs, replaying every observed "
+             "Tied to wholesym/src/file_creation.rs by running the real routine (step hook) with 2..5 creators in 1..4 processes under driver-chosen schedules with SIGKILLs and with CANCELLATIONS (a creator's future, polled by hand, is dropped at its "
+             "next await that is not ready while its runtime lives on, optionally with a busy blocking pool that is released later; the model's Kill event for that creator), replaying every observed "
              "trace in the model (same step, same dest/.part/.lock contents after every step) and deciding the property on the observations; the two callers run end to end through "
              "wholesym (harness h_ws): the derived .symindex under a file-size limit that fails a write (also for indexes above 2 MiB, against an index made directly with samply-symbols), and "
              "a .sym download from a local HTTP server whose first response is cut short (inside a gzip stream, or before Content-Length bytes): the cache file is absent or complete.",
         note="Trusted: Coq kernel; the cfg(samply_verif) step hook; harness h_fc and the scheduler in vlib/c16.py; Linux flock/rename/unlink semantics as modelled (inode-based). The proof is about the "
-             "model's interleaving semantics at the granularity of the hooked steps; instants inside one system call, power loss and Windows are not covered; cancellation is represented by process death.",
+             "model's interleaving semantics at the granularity of the hooked steps; instants inside one system call, power loss and Windows are not covered; a cancelled creator is the model's killed creator (both close the descriptors and clean nothing up).",
         technique="Coq proof (inductive invariant of an interleaving small-step semantics with inode-level locks; progress argument for the retry clause) + trace-conformance correspondence run evaluated by vm_compute",
         design="4/C16"),
     "C19": dict(
@@ -205,7 +211,7 @@ CHECKS = {
              "grammar-respecting histories -> perf.data -> samply import -> out.json, compared entry by entry (names, start/end times, main flag) with the model, and four model-free clauses of the "
              "property (last COMM shown, FORK/EXIT times as lifetimes, samples around an EXEC on different process entries, a forked thread shows the forking thread's name) decided on the output.",
         note="Trusted: as C01. The theorems are per-record effects (composition over a history is by the model run, checked end to end); the property-level oracle is partial. Default options only. "
-             "F-C17 (threads with records after their main thread's EXIT) is an open known finding.",
+             "F-C17 (threads with records after their main thread's EXIT) is an open known finding; a failing history of that class counts as the finding only when the output equals what the as-built model yields for it - any other outcome is reported as a violation.",
         technique="Coq proof (well-formedness invariant of the live table w.r.t. the profile entries; per-record effect theorems) + end-to-end correspondence run with a partial specification-level oracle",
         design="4/C17"),
     "C03": dict(
@@ -224,7 +230,7 @@ CHECKS = {
              "fxprof-processed-profile by random API call sequences -> serde_json -> every table of every thread through the verified checker, walked stacks against supplied frames, thread references, "
              "id strings, thread order, counter thread indices, every marker's name and field values (static and runtime schemas), and the exact contents of the string / frame / func / resource / native-symbol tables "
              "(with the frames' category / subcategory columns and the markers' category column), meta.categories and the used-library order against the model; a walked frame only equals a supplied one when its category, colour and subcategory names and its frame flags do; stacks are also built with handle_for_stack_frames; "
-             "allocation samples are walked in the thread that holds them (open finding F-C03a: for a thread that is not the first of its process the stored stack index belongs to another thread's table).",
+             "allocation samples are walked in the thread that holds them (open finding F-C03a: for a thread that is not the first of its process the stored stack index belongs to another thread's table; a failing history of that class counts as the finding only when nothing else of the property fails on it - verdict_sans_f03a).",
         note="Trusted: Coq kernel; harness h_fxprof; vlib/c03.py (catalogue of which JSON column indexes which table; frame content ids; expected address resolution). NOT yet modelled / proved: "
              "kernel library mappings, allocation samples, counter sample columns (their ordering is C04), "
              "marker graphs and the schema JSON. For those parts the claim rests on the verified checker applied to sampled outputs, which is testing.",
